@@ -32,6 +32,7 @@ RULE = (
 RULE += (" The corpus is converted with the stock test backend and with the verification backend (in-expressions, not-equals, correlation typing / fields / normalisation templates); it contains rule and correlation fields lists, a strict-mapping pipeline with several unmapped fields and a filter whose condition names an undefined detection.")
 RULE += (" Correlation group-by lists contain fields that a one-to-many mapping maps onto names already in the list.")
 RULE += (" One pipeline has items without explicit ids and a template that prints the (sorted) identifiers of the applied items.")
+RULE += (" Every corpus is also converted by a backend class that supports fewer features than the rules use (one regular-expression flag of three, no field comparison, no compare operators, no case-sensitive match): its error records name what is unsupported.")
 ASSUMPTIONS = [
     "hash seeds, random seeds and process starts are sampled, not enumerated",
     "the two validators that fetch data over the network are left out",
@@ -162,7 +163,7 @@ def check_case(case: dict) -> Outcome:
                 out.fail(f"C20:nondeterministic:{sec}:{what}", f"section {sec} differs between env {base_env} and {env}: {json.dumps(diff)[:700]}")
                 break
     # internal identifiers must not leak into queries, finalised output or error records
-    for sec in ("conversions", "conversions_verification_backend", "conversions_backend_without_regex_escaping"):
+    for sec in ("conversions", "conversions_verification_backend", "conversions_backend_without_regex_escaping", "conversions_backend_with_fewer_features"):
         for conv in base["sections"].get(sec, []):
             for q in conv["queries"]:
                 if isinstance(q, str) and leak.search(q):
